@@ -12,6 +12,9 @@ void __VERIFIER_freeze(const void *);
 // Reported as "UB: ..." and the path is cut (after UB nothing further is meaningful).
 #define VERIF_PRE(c, m) do { bool verif_c_ = (c); __VERIFIER_assert(verif_c_, "UB: " m); __VERIFIER_assume(verif_c_); } while (0)
 // Capacity of a work list (queue, stack, heap) exceeded: reported like a loop bound that is too small (check undecided), never silently cut.
+// Capacity of a container model exceeded (or a value outside what the model can print): the path is cut, and the cut is an assertion of its
+// own class - the driver reports every reachable cut and fails the obligation unless the cut is declared in its specification.
+#define VERIF_CUT(c, m) do { bool verif_c_ = (c); __VERIFIER_assert(verif_c_, "CUT: " m); __VERIFIER_assume(verif_c_); } while (0)
 #define VERIF_WORK_CAP(c, m) do { bool verif_c_ = (c); __VERIFIER_assert(verif_c_, "unwinding bound: capacity of " m " exceeded"); __VERIFIER_assume(verif_c_); } while (0)
 #ifndef VERIF_LIST_CAP
 #define VERIF_LIST_CAP 4
